@@ -347,7 +347,13 @@ func (b *BaseType) UnmarshalJSON(data []byte) error {
 		case []interface{}:
 			// it's an OvsSet
 			oSet := bt.Enum.([]interface{})
-			innerSet := oSet[1].([]interface{})
+			if len(oSet) != 2 || oSet[0] != "set" {
+				return fmt.Errorf("enum %v is neither an atom nor a set", bt.Enum)
+			}
+			innerSet, ok := oSet[1].([]interface{})
+			if !ok {
+				return fmt.Errorf("enum %v is neither an atom nor a set", bt.Enum)
+			}
 			b.Enum = make([]interface{}, len(innerSet))
 			copy(b.Enum, innerSet)
 		default:
@@ -544,6 +550,10 @@ func (c *ColumnSchema) UnmarshalJSON(data []byte) error {
 	// Unmarshal known keys
 	if err := json.Unmarshal(data, &colJSON); err != nil {
 		return fmt.Errorf("cannot parse column object %s", err)
+	}
+
+	if colJSON.Type == nil || colJSON.Type.Key == nil {
+		return fmt.Errorf("cannot parse column object: a column requires a type with a key")
 	}
 
 	c.ephemeral = colJSON.Ephemeral
